@@ -139,9 +139,13 @@ def gtf2db(gtf, db, complete_db=False, check_gtf=True):
         check_input_gtf(gtf, db, complete_db)
 
     logger.info("Converting gene annotation file to .db format (takes a while)...")
-    gffutils.create_db(gtf, db, force=True, keep_order=True, merge_strategy='error',
+    # another run may be working with the database that has this name (found through the cache of converted annotations):
+    # the new one is built aside and takes the name when it is complete, the other run keeps the file it has opened
+    unfinished_db = "%s.%d.tmp" % (db, os.getpid())
+    gffutils.create_db(gtf, unfinished_db, force=True, keep_order=True, merge_strategy='error',
                        sort_attribute_values=True, disable_infer_transcripts=complete_db,
                        disable_infer_genes=complete_db)
+    os.replace(unfinished_db, db)
     logger.info("Gene database written to " + db)
     logger.info("Provide this database next time to avoid excessive conversion")
 
